@@ -353,7 +353,7 @@ class ShardsFamily(_Base):
     cfg['shards'] = rng.randrange(1, 7)
     cfg['ibs'] = rng.choice([0, 1, 2, 3])
     cfg['prefetch'] = rng.choice([1, 2, 4])
-    cfg['retry_threshold'] = rng.choice([0, 1, 3, 999999, 999999])
+    cfg['retry_threshold'] = rng.choice([0, 1, 2, 2, 3, 4, 999999, 999999])
     cfg['plan'] = gen_plan(
         rng, cfg['workers'],
         ['init_generator', 'next_batch_from_generator',
@@ -494,6 +494,21 @@ class ShardsFamily(_Base):
                        + (f'; abandoned call {late[0]} ran after {late[1]}'
                           if late else '')))
     else:
+      import re
+      m = re.search(r'Too many Timeouts: (\d+) > (\d+)', end[2]) if end[1] == 'TimeoutError' else None
+      if m:
+        # The retry budget is charged per timed-out task: the count the pool
+        # reports cannot exceed the generator calls that did not get an answer
+        # in time (deadline exceeded, or never answered because the worker was
+        # gone) - whatever else happened in the run.
+        unanswered = sum(1 for c in obs.get('gen_calls') or ()
+                         if c[3] in ('deadline', None) or str(c[3]).startswith(
+                             ('dropped', 'reply-dropped')))
+        if int(m.group(1)) > unanswered:
+          res.append(v('robustness', 'retry-budget-overcharged:shards',
+                       f'{end[2][:120]}: {m.group(1)} timeouts charged, only '
+                       f'{unanswered} generator calls went unanswered; '
+                       f'fired {obs["fired"]}'))
       if app and end[1] == 'RuntimeError' and 'Failed at' in end[2]:
         pass
       elif usable and within and not app:
